@@ -54,6 +54,8 @@ def build_harness():
     with Lock("go"):
         shutil.copyfile(os.path.join(REPO, "go.sum"), os.path.join(HARNESS, "go.sum"))
         os.makedirs(os.path.join(HARNESS, "bin"), exist_ok=True)
+        if not os.path.isdir(os.path.join(HARNESS, "evilssh")):
+            sh([os.path.join(HARNESS, "evilssh_src", "gen.sh")], cwd=HARNESS, env=GOENV, timeout=300)
         rc, out = sh(["go", "build", "-tags", "verif", "-o", os.path.join(HARNESS, "bin") + "/", "./cmd/..."],
                      cwd=HARNESS, env=GOENV, timeout=900)
     return rc == 0, out
@@ -445,6 +447,10 @@ def main(argv):
             if ncases == 0:
                 failures.append({"kind": "tie", "stream": os_, "signature": "oracle-error " + os_, "detail": oout[-2000:]})
             for l in of:
+                # an oracle shared by several properties tags each failure with the property it speaks for
+                m = re.match(r"ORACLE-FAIL (C\d\d) ", l)
+                if m and m.group(1) != prop:
+                    continue
                 failures.append({"kind": "oracle", "stream": os_, "signature": l[:600], "detail": l})
     notes["oracles"] = oracle_stats
     # 6. violation search
@@ -528,14 +534,14 @@ def search(prop, cfg, failures, seed, tier, tag, known, known_hits):
                 if m:
                     fo.write(m.group(1) + "\n")
         of, ncases, oout = run_oracle(stream, seed, 20000 if tier == "quick" else 200000, tier, tag, infile)
-        of = [l for l in of if not match_known(known, prop, l)]
+        of = [l for l in of if not match_known(known, prop, l) and not (re.match(r"ORACLE-FAIL (C\d\d) ", l) and re.match(r"ORACLE-FAIL (C\d\d) ", l).group(1) != prop)]
         targeted[stream] = (of, "oracle cases=%d unlisted-fails=%d" % (ncases, len(of)))
     # if a proof obligation or the tie itself broke, every oracle of the property is run wider
     wide = []
     if any(f["kind"] in ("obligation", "tie") for f in live):
         for os_ in cfg.get("oracles", []):
             of, ncases, oout = run_oracle(os_, seed + 1000, 20000 if tier == "quick" else 200000, tier, tag, None)
-            wide += [l for l in of if not match_known(known, prop, l)]
+            wide += [l for l in of if not match_known(known, prop, l) and not (re.match(r"ORACLE-FAIL (C\d\d) ", l) and re.match(r"ORACLE-FAIL (C\d\d) ", l).group(1) != prop)]
     live_oracle = [f["detail"] for f in live if f["kind"] == "oracle"]
     reported = set()
     for f in live:
